@@ -437,7 +437,9 @@ static Verdict runStrings(const G &g, bool incremental) {
 static rc::Gen<G> genBss() {
   return rc::gen::mapcat(rc::gen::weightedOneOf<int>({{2, rc::gen::just(4)}, {2, rc::gen::just(8)}, {3, rc::gen::map(irange(1, 20), [](int L) { return 100 + L; })}}), [](int w) {
     int L = w >= 100 ? w - 100 : w;
-    return rc::gen::mapcat(rc::gen::weightedOneOf<int>({{4, irange(0, 70)}, {1, irange(71, 600)}}), [w, L](int n) {
+    // rarely a count around 32768 / 65536 (block-wise kernels, 16-bit counters); those bytes come from a seeded xorshift
+    return rc::gen::mapcat(rc::gen::weightedOneOf<int>({{240, irange(0, 70)}, {60, irange(71, 600)}, {L <= 8 ? 5 : 0, rc::gen::element(32767, 32768, 32769, 32784, 40000, 65535, 65536, 65537, 70001)}}), [w, L](int n) {
+      if (n > 600) return rc::gen::map(bits64(), [w, L, n](uint64_t seed) { Bytes b((size_t)n * (size_t)L); uint64_t s = seed | 1; for (auto &x : b) { s ^= s << 13; s ^= s >> 7; s ^= s << 17; x = (uint8_t)(s >> 24); } G g; g.w = w; g.strs.push_back(b); return g; });
       return rc::gen::map(rc::gen::container<Bytes>((size_t)(n * L), rc::gen::arbitrary<uint8_t>()), [w](const Bytes &b) { G g; g.w = w; g.strs.push_back(b); return g; });
     });
   });
@@ -481,11 +483,26 @@ static rc::Gen<G> genDict() {
                             });
       });
     }
-    return rc::gen::mapcat(poolsz, [w](int k) {
-      return rc::gen::map(rc::gen::pair(rc::gen::container<std::vector<uint64_t>>((size_t)k, gen::f64bits()), gen::anySeq(16, false)),
+    // structured pools: values that agree in their low (or high) 32 bits - whole-number doubles, k << 32, k * 2^32 + c - as
+    // real columns hold them; an equality or hash shortcut over half of the key merges such entries
+    auto structured = rc::gen::map(rc::gen::tuple(irange(0, 3), irange(2, 400), bits64()), [](const std::tuple<int, int, uint64_t> &t) {
+      std::vector<uint64_t> pool; int kind = std::get<0>(t), k = std::get<1>(t); uint64_t c = std::get<2>(t);
+      for (int i = 0; i < k; i++) {
+        uint64_t v;
+        if (kind == 0) { double d = (double)i; memcpy(&v, &d, 8); }
+        else if (kind == 1) v = (uint64_t)i << 32;
+        else if (kind == 2) v = ((uint64_t)i << 32) | (c & 0xffffffffu);
+        else v = (c & 0xffffffff00000000ull) | (uint64_t)i;
+        pool.push_back(v);
+      }
+      return pool; });
+    return rc::gen::mapcat(poolsz, [w, structured](int k) {
+      auto pool = (w == 2 || w == 5) ? rc::gen::weightedOneOf<std::vector<uint64_t>>({{3, rc::gen::container<std::vector<uint64_t>>((size_t)k, gen::f64bits())}, {1, structured}})
+                                     : rc::gen::container<std::vector<uint64_t>>((size_t)k, gen::f64bits());
+      return rc::gen::map(rc::gen::pair(pool, gen::anySeq(16, false)),
                           [w, k](const std::pair<std::vector<uint64_t>, std::vector<uint32_t>> &p) {
                             G g; g.w = w;
-                            for (uint32_t i : p.second) { uint64_t x = p.first[i % (uint32_t)k]; g.ints.push_back((w == 1 || w == 4) ? (int64_t)(uint32_t)x : (int64_t)x); }
+                            for (uint32_t i : p.second) { uint64_t x = p.first[i % (uint32_t)p.first.size()]; g.ints.push_back((w == 1 || w == 4) ? (int64_t)(uint32_t)x : (int64_t)x); }
                             return g;
                           });
     });
